@@ -317,7 +317,44 @@ func runC11(c *Ctx) {
 			case "testAndSet":
 				c.ok(key, instrPos(w.Instr), "unbounded when the key is absent: its callers are checked below")
 			default:
-				c.fail(key, instrPos(w.Instr), "a new writer of shard.m inserts without the eviction loop of shard.set: the shard can exceed its maximum")
+				// a NEW helper that does the writing for testAndSet / rangeDo (under their lock): same obligations at its
+				// call sites
+				okHelper := false
+				if isNewHelper(w.Fn) {
+					sites, asValue := callSitesOf(w.Fn)
+					okHelper = !asValue && len(sites) > 0
+					ki := -1
+					for i, prm := range w.Fn.Params {
+						if w.Key == ssa.Value(prm) {
+							ki = i
+						}
+					}
+					for _, st := range sites {
+						switch st.Parent().Name() {
+						case "testAndSet":
+						case "rangeDo":
+							existing := false
+							args := st.(ssa.CallInstruction).Common().Args
+							if ki >= 0 && ki < len(args) {
+								if ex, ok := args[ki].(*ssa.Extract); ok {
+									if nx, ok := ex.Tuple.(*ssa.Next); ok {
+										if rg, ok := nx.Iter.(*ssa.Range); ok {
+											if k, _ := loadedField(rg.X); k == mField {
+												existing = true
+											}
+										}
+									}
+								}
+							}
+							if !existing {
+								okHelper = false
+							}
+						default:
+							okHelper = false
+						}
+					}
+				}
+				c.check(okHelper, key, instrPos(w.Instr), "writer helper of testAndSet / rangeDo (rangeDo hands it the key it ranges over)", "a new writer of shard.m inserts without the eviction loop of shard.set: the shard can exceed its maximum")
 			}
 		}
 		// callers of the non-evicting setter
@@ -715,6 +752,14 @@ func checkExpiryGuards(c *Ctx) {
 							okGuard = true
 						}
 					}
+					// the same predicate behind a function: expired(e.expirationTime, time.Now())
+					if e2, n2, isF := expiredFuncArgs(cl); isF && !truth {
+						if k, ok := loadedField(e2); ok && strings.HasSuffix(k, ".elem.expirationTime") {
+							if c2, ok := n2.(*ssa.Call); ok && callName(c2) == "time.Now" {
+								okGuard = true
+							}
+						}
+					}
 					// the same predicate behind a method of the entry: e.expired(time.Now())
 					if !truth && isExpiredHelper(cl.Call.StaticCallee()) && len(cl.Call.Args) == 2 {
 						if c2, ok := cl.Call.Args[1].(*ssa.Call); ok && callName(c2) == "time.Now" {
@@ -751,6 +796,13 @@ func checkExpiryGuards(c *Ctx) {
 				}
 				if cl, ok := del.(*ssa.Call); ok && isExpiredHelper(cl.Call.StaticCallee()) {
 					okDel = true
+				}
+				if cl, ok := del.(*ssa.Call); ok {
+					if e2, _, isF := expiredFuncArgs(cl); isF {
+						if k, ok := loadedField(e2); ok && strings.HasSuffix(k, ".elem.expirationTime") {
+							okDel = true
+						}
+					}
 				}
 				c.check(okDel, "sweep-verdict@"+funcName(an), instrPos(r), "sweep deletes exactly when now is after the entry's expiry",
 					"the sweep's delete verdict is not 'now.After(expirationTime)': live entries can be removed or dead ones kept")
@@ -805,6 +857,16 @@ func isExpiredNowTest(v ssa.Value, exp ssa.Value, needNow bool) bool {
 		return false
 	}
 	var now ssa.Value
+	if e2, n2, isF := expiredFuncArgs(cl); isF {
+		if e2 != exp {
+			return false
+		}
+		if !needNow {
+			return true
+		}
+		c2, ok := n2.(*ssa.Call)
+		return ok && callName(c2) == "time.Now"
+	}
 	switch callName(cl) {
 	case "(time.Time).After":
 		if cl.Call.Args[1] != exp {
@@ -824,4 +886,51 @@ func isExpiredNowTest(v ssa.Value, exp ssa.Value, needNow bool) bool {
 	}
 	c2, ok := now.(*ssa.Call)
 	return ok && callName(c2) == "time.Now"
+}
+
+// expiredFuncArgs: cl calls a function of the analysed module `f(a, b time.Time) bool` whose single return is b.After(a) or
+// a.Before(b) (either parameter order): returns the arguments in the roles (expiry, now).
+func expiredFuncArgs(cl *ssa.Call) (exp, now ssa.Value, ok bool) {
+	h := cl.Call.StaticCallee()
+	if h == nil || cl.Call.IsInvoke() {
+		return nil, nil, false
+	}
+	if o := h.Origin(); o != nil {
+		h = o
+	}
+	if len(h.Blocks) == 0 || !inMosdns(h) || len(h.Params) != 2 || len(cl.Call.Args) != 2 || h.Signature.Recv() != nil {
+		return nil, nil, false
+	}
+	for _, prm := range h.Params {
+		if prm.Type().String() != "time.Time" {
+			return nil, nil, false
+		}
+	}
+	rets := returnsOf(h)
+	if len(rets) != 1 || len(rets[0].Results) != 1 {
+		return nil, nil, false
+	}
+	in, isCall := rets[0].Results[0].(*ssa.Call)
+	if !isCall || len(in.Call.Args) != 2 {
+		return nil, nil, false
+	}
+	idx := func(v ssa.Value) int {
+		for i, prm := range h.Params {
+			if v == ssa.Value(prm) {
+				return i
+			}
+		}
+		return -1
+	}
+	a0, a1 := idx(in.Call.Args[0]), idx(in.Call.Args[1])
+	if a0 < 0 || a1 < 0 || a0 == a1 {
+		return nil, nil, false
+	}
+	switch callName(in) {
+	case "(time.Time).After": // now.After(exp)
+		return cl.Call.Args[a1], cl.Call.Args[a0], true
+	case "(time.Time).Before": // exp.Before(now)
+		return cl.Call.Args[a0], cl.Call.Args[a1], true
+	}
+	return nil, nil, false
 }
